@@ -229,6 +229,11 @@ def run_writes(run, rng, quick, idx0):
             if err:
                 irep = 'err'
                 run.hist['write:error'] += 1
+                # leg 3: a block that holds every pixel of the window must be written (cropped to the dataset) without
+                # error, wherever the window lies relative to the dataset - inside, across an edge or wholly outside
+                if r0 <= ww[0] and ww[1] <= r0 + rl and c0 <= ww[2] and ww[3] <= c0 + cl:
+                    run.fail(case, f'write of a block that contains the window raised {err}',
+                             signature=dict(kind='write-raises'))
             else:
                 with rio.open(p) as ds:
                     back = ds.read(1)
